@@ -306,71 +306,7 @@ func c16StoreMeansStored(c *Ctx) {
 	}
 }
 
-func c16SingleSource(c *Ctx) {
-	const rule = "C16.single-source"
-	fn := mustFunc(c, "kv", "", "mergeRoots")
-	srcF := mustField(c, "kv/internal/crdt", "Tree", "Source")
-	if fn == nil || srcF == nil {
-		return
-	}
-	name := core.FuncName(fn)
-	n := 0
-	for _, st := range an.StoresToField(fn, srcF) {
-		cl, ok := an.Unwrap(st.Val).(*ssa.Call)
-		if !ok || cl.Call.StaticCallee() == nil || len(cl.Call.Args) != 1 {
-			continue // Source = nil (reset) etc.
-		}
-		if _, isMap := cl.Call.Args[0].Type().Underlying().(*types.Map); !isMap {
-			continue
-		}
-		n++
-		m := cl.Call.Args[0]
-		good := false
-		var tested string
-		for _, blk := range fn.Blocks {
-			iff, ok := blk.Instrs[len(blk.Instrs)-1].(*ssa.If)
-			if !ok {
-				continue
-			}
-			cond, neg := an.StripNot(iff.Cond)
-			bo, ok := cond.(*ssa.BinOp)
-			if !ok || (bo.Op != token.EQL && bo.Op != token.NEQ) {
-				continue
-			}
-			var lenArg ssa.Value
-			for _, side := range []ssa.Value{bo.X, bo.Y} {
-				if lc, ok := side.(*ssa.Call); ok {
-					if bi, ok := lc.Call.Value.(*ssa.Builtin); ok && bi.Name() == "len" {
-						lenArg = lc.Call.Args[0]
-					}
-				}
-			}
-			if lenArg == nil {
-				continue
-			}
-			eq := bo.Op == token.EQL
-			if neg {
-				eq = !eq
-			}
-			si := 0
-			if !eq {
-				si = 1
-			}
-			if !an.OnlyVia(blk, si, st.Block()) {
-				continue
-			}
-			tested = lenArg.Name()
-			if an.SameValue(lenArg, m) {
-				good = true
-			}
-		}
-		c.R.Cond(good, rule, fmt.Sprintf("%s: Source is set under a length test of the same collection #%d", name, n), c.P.Pos(st.Pos()),
-			"len(m) == 1 guards Source = first key of m, for the same m (the versions really merged)", "tree.Source is taken from one collection but guarded by the length of another ("+tested+"): with several listed versions of which one is usable, Source stays unset although a single version was merged, Commit's no-op test fails and an unchanged tree is re-committed by every opener")
-	}
-	if n == 0 {
-		c.R.Unk(rule, name+": Source assignment", c.P.Pos(fn.Pos()), "no assignment of tree.Source from a map found")
-	}
-}
+func c16SingleSource(c *Ctx) { continuesMerged(c, "C16.single-source") }
 
 // ---- C16.fresh-bytes / C16.cache-scope ---------------------------------------------------------------
 
